@@ -142,7 +142,10 @@ class Result:
             json.dump(dict(payload, property=self.prop, what=what), f, indent=1, default=str)
         self.violations.append({"what": what, "replay": path, "found_input": found_input})
         suffix = "" if found_input else " no-failing-input-found"
-        self.say(f"VIOLATION property={self.prop} replay={path} {what}{suffix}")
+        if len(self.violations) <= 8:
+            self.say(f"VIOLATION property={self.prop} replay={path} {what[:600]}{suffix}")
+        elif len(self.violations) == 9:
+            self.say(f"(further violations of {self.prop} are written to {os.path.dirname(path)} without a line each)")
 
     def known(self, entry, what=""):
         if entry["id"] not in self.known_hits:
